@@ -125,7 +125,10 @@ func newWorld(t *rapid.T, r *rec.Recorder, numVals int) *world {
 		d := w.deployNode(&node{Kind: "dproxy", Target: leaf})
 		dp := w.deployNode(&node{Kind: "dproxy", Target: p}) // delegatecalls proxy code: the CALL comes from dp itself
 		pd := w.deployNode(&node{Kind: "proxy", Target: d})
-		w.routes[s] = []*node{p, pp, d, dp, pd}
+		// the system contract's own byte code at another address (its events come from that address)
+		cl := w.deployNode(&node{Kind: "clone", Sys: s, Code: c.App.EvmKeeper.GetCode(w.ctx(), common.BytesToHash(c.App.EvmKeeper.GetAccountOrEmpty(w.ctx(), leaf.Addr).CodeHash))})
+		w.routes[s] = []*node{p, pp, d, dp, pd, cl}
+		w.fund(cl.Addr, 1_000_000_000)
 		// the contracts that can become the direct caller of the system contract get coins
 		w.fund(p.Addr, 1_000_000_000_000)
 		w.fund(dp.Addr, 1_000_000_000_000)
@@ -153,6 +156,11 @@ func (n *node) runtime() []byte {
 		return asmkit.DelegateProxy(n.Target.Addr)
 	case "emitter":
 		return asmkit.Emitter(1)
+	case "clone":
+		if len(n.Code) == 0 {
+			kit.Failf("clone without code")
+		}
+		return n.Code
 	case "script":
 		var ops []asmkit.Op
 		for _, op := range n.Ops {
@@ -381,7 +389,9 @@ func (w *world) runTx(s txSpec) {
 	for i, e := range evs {
 		if e.Look || e.Addr != e.Act.sysAddr() {
 			kind := "script.log"
-			if !e.Look {
+			if !e.Look && strings.Contains(e.Path, ">clone:") {
+				kind = "clone-of-system-contract"
+			} else if !e.Look {
 				kind = "delegatecall"
 			} else if strings.HasSuffix(e.Path, ">emitter") {
 				kind = "emitter"
